@@ -65,6 +65,10 @@ def _file_case(args):
             obs, var = _write(src, M, 'csr')
             src2 = os.path.join(d, 'src2_csr.h5ad')
             _write(src2, M2, 'csr')
+            # one file that holds the first matrix in X and the second in a layer
+            import anndata as _ad
+            both = os.path.join(d, 'both.h5ad')
+            _ad.AnnData(X=sp.csr_matrix(M), obs=obs, var=var, layers={'alt': sp.csr_matrix(M2)}).write_h5ad(both)
             # ---- pivot CSR -> CSC
             for P in ((2,) if quick else (1, 2, 3)):
                 n += 1
@@ -117,14 +121,19 @@ def _file_case(args):
             # ---- stacking row selections from two files
             st = s['stacks'] if not quick else rng.sample(s['stacks'], 4)
             for c in st:
-                for sparse_out in (True, False):
+                for sparse_out, one_file in ((True, False), (False, False), (True, True), (False, True)):
                     n += 1
                     dst = os.path.join(d, 'amal.h5ad')
                     rows_spec, names = [], []
                     for fidx, rows in c['sel']:
                         if not rows:
                             continue
-                        rows_spec.append({'path': src if fidx == 1 else src2, 'rows': [r - 1 for r in rows], 'layer': 'X'})
+                        if one_file:
+                            # both selections come from ONE file: X and the layer
+                            rows_spec.append({'path': both, 'rows': [r - 1 for r in rows],
+                                              'layer': 'X' if fidx == 1 else 'alt'})
+                        else:
+                            rows_spec.append({'path': src if fidx == 1 else src2, 'rows': [r - 1 for r in rows], 'layer': 'X'})
                         names += [f'f{fidx}_c{r - 1}_{len(names) + k}' for k, r in enumerate(rows)]
                     want = np.array(c['result'], dtype=np.float32).reshape((len(names), B))
                     try:
@@ -134,7 +143,8 @@ def _file_case(args):
                         X, o, v, enc = _dense(dst)
                         if not np.array_equal(X, want) or o != names or v != list(var.index):
                             out.append(('files:amalgamate:wrong-result',
-                                        f'sel={c["sel"]} sparse={sparse_out} matrix={s["matrix"]} got {X.tolist()}'))
+                                        f'sel={c["sel"]} sparse={sparse_out} one_file={one_file} matrix={s["matrix"]} '
+                                        f'matrix2={s["matrix2"]} got {X.tolist()}'))
                     except Exception as e:
                         # a selection (piece) without any stored value
                         empty = any((M if f == 1 else M2)[[r - 1 for r in rows]].sum() == 0
@@ -266,8 +276,53 @@ def _trace_case(args):
             'events': events, 'scipy_ok': scipy_ok, 'nnz': k - 1}
 
 
+def _parallel_large_case(args):
+    A, B, P, dens, seed, wd = args
+    import random
+    from cell_type_mapper.utils.csc_to_csr_parallel import transpose_sparse_matrix_on_disk_v2
+    from harness import build
+    from harness.checks.c13 import write_input, read_out
+    rng = random.Random(seed)
+    rows = [sorted(c for c in range(B) if rng.random() < dens) for _ in range(A)]
+    d = tempfile.mkdtemp(dir=wd)
+    try:
+        src, dst = os.path.join(d, 'in.h5'), os.path.join(d, 'out.h5')
+        write_input(src, rows, B, True)
+        with build.redirect_fds(os.path.join(d, 'stdio.txt')):
+            transpose_sparse_matrix_on_disk_v2(h5_path=src, indices_tag='indices', indptr_tag='indptr', data_tag='data',
+                                               indices_max=B, max_gb=1, output_path=dst, tmp_dir=d, n_processors=P)
+        got = read_out(dst, True)
+        M = np.zeros((A, B))
+        k = 1
+        for a, r in enumerate(rows):
+            for c in r:
+                M[a, c] = k
+                k += 1
+        T = sp.csr_matrix(M.T)
+        T.sort_indices()
+        ok = (T.indptr.tolist() == list(got[0]) and T.indices.tolist() == list(got[1])
+              and T.data.astype(int).tolist() == [int(x) for x in got[2]])
+        return ok, None
+    except Exception as e:
+        return False, f'{type(e).__name__}: {e}'
+    finally:
+        shutil.rmtree(d, ignore_errors=True)
+
+
 def run_c13_traces(ctx, quick, rng, wd):
     from harness.traces import _denull
+    # parallel transposition of matrices whose worker ranges start at 0, 9, 18 / 0, 5, 10, 15 / 0, 50, 100 ...
+    pj = [(7, B, P, 0.4, ctx.seed * 100 + i, wd)
+          for i, (B, P) in enumerate([(25, 3), (20, 4), (150, 3), (12, 3), (101, 4), (30, 3)] if quick else
+                                     [(B, P) for B in (11, 20, 25, 30, 99, 101, 150, 1001) for P in (2, 3, 4)])]
+    with cf.ProcessPoolExecutor(max_workers=6) as ex:
+        pouts = list(ex.map(_parallel_large_case, pj))
+    for (A_, B_, P_, _, sd, _), (ok, err) in zip(pj, pouts):
+        ctx.count({'parallel_large': [A_, B_, P_, sd]}, nontrivial=True)
+        if not ok:
+            ctx.report('transpose:parallel-large:wrong-result', f'parallel transposition of a {A_}x{B_} matrix with {P_} '
+                       f'workers differs from scipy ({err})', {'parallel_large': [A_, B_, P_, sd]})
+    ctx.part('parallel_large', cases=len(pj))
     A, B = 20, 20
     n = 10 if quick else 100
     jobs = []
